@@ -120,8 +120,10 @@ def make_env(is_async=False, extra=None):
     srcs = dict(LIB)
     srcs.update(TEMPLATES)
     srcs.update(NS_TEMPLATES)
+    srcs.update(POLICY_TEMPLATES)
     srcs.update(extra or {})
-    env = jinja2.Environment(loader=jinja2.DictLoader(srcs), enable_async=is_async, extensions=["jinja2.ext.loopcontrols", "jinja2.ext.do"])
+    env = jinja2.Environment(loader=jinja2.DictLoader(srcs), enable_async=is_async, extensions=["jinja2.ext.loopcontrols", "jinja2.ext.do", "jinja2.ext.i18n"])
+    env.install_null_translations()
     env.globals["g"] = "G"
     env.globals["glist"] = [1, 2]
     return env
@@ -149,6 +151,7 @@ def history_problems(names, is_async=False, extra=None, threads=4, data_fn=base_
     want = {n: isolated(n, data_fn(), is_async, extra) for n in names}
     env = make_env(is_async, extra)
     g_before = canon(dict(env.globals))
+    state_before = env_state(env)
     tg = {"tglob": [1, 2], "g": "TG"}
     tg_before = canon(tg)
     for n in names:
@@ -165,6 +168,10 @@ def history_problems(names, is_async=False, extra=None, threads=4, data_fn=base_
         if canon(dict(env.globals)) != g_before:
             problems.append((n, "env.globals", f"{n}: rendering modified the environment globals"))
             g_before = canon(dict(env.globals))
+        changed = state_diff(state_before, env_state(env))
+        if changed:
+            problems.append((n, "env-state", f"{n}: rendering changed {changed} (environment policies incl. nested values / filter and test tables / process-wide defaults)"))
+            state_before = env_state(env)
     for n in names:  # after all the others
         r = render_once(env, n, data_fn())
         if r != want[n]:
@@ -203,8 +210,8 @@ def history_problems(names, is_async=False, extra=None, threads=4, data_fn=base_
 
 
 def native_histories(w=None):
-    names = list(TEMPLATES)
-    ps = history_problems(names) + history_problems([n for n in names if n != "t_cycler"], is_async=True, threads=0)
+    names = list(TEMPLATES) + list(POLICY_TEMPLATES)
+    ps = history_problems(names) + history_problems([n for n in names if n != "t_cycler"], is_async=True, threads=0) + policy_problems()
     return (bool(ps), "; ".join(p[2] for p in ps[:2]) or f"{len(names)} templates: repeated / interleaved / threaded renders equal the isolated render; inputs unchanged")
 
 
@@ -525,9 +532,9 @@ class FrameOf(Task):
     pre-existing object is the idempotent cache Template._module.  Optionally re-lists named clauses of that contract."""
     kind = "vc"
 
-    def __init__(self, label, module, expr, relist=(), relist_as=None):
+    def __init__(self, label, module, expr, relist=(), relist_as=None, prefix="C29.frame.entry"):
         self.prop = "C29"
-        self.name = f"C29.frame.entry.{label}"
+        self.name = f"{prefix}.{label}"
         self.module, self.expr, self.relist, self.relist_as = module, expr, tuple(relist), relist_as
 
     def inner(self):
@@ -1053,6 +1060,270 @@ class FiltersProxy(Task):
 
 
 # =====================================================================================================================
+# C29.frame.filters.policies : filters that read environment.policies leave the policy values (shared between environments) alone
+# =====================================================================================================================
+
+class PolicyFrame(VC):
+    """A filter that consults environment.policies: the policies mapping and every value reachable from it exist before the
+    call (the nested ones are shared by ALL environments: DEFAULT_POLICIES is copied shallowly) and must be unchanged after it;
+    every write goes to an object the call allocated."""
+    prop = "C29"
+    timeout_quick = 15000
+
+    def frame(self, pre, out):
+        bad = frame_violations(out.st) + containers_changed(pre, out.st)
+        return not bad
+
+    def concretize(self, model, pre, out):
+        return {"filter": self.target.split(":")[-1]}
+
+    def replay(self, w):
+        return replay_policies(w)
+
+
+class ToJsonPolicy(PolicyFrame):
+    """do_tojson(eval_ctx, value, indent): dumps receives the policy's keyword arguments; with an indent a COPY of them plus
+    `indent`, the policy dict itself is never written."""
+    target = "jinja2.filters:do_tojson"
+
+    def __init__(self, given):
+        self.given = given
+        super().__init__("C29", f"C29.frame.filters.policies.do_tojson[indent={'given' if given else 'None'}]")
+
+    def configure(self, I):
+        import jinja2.filters as F
+        I.specs["star_kwargs_abstract"] = True
+        I.specs[("fn", id(F.htmlsafe_json_dumps))] = A.abstract_fn("htmlsafe_json_dumps", returns="obj", raises=[("any", Exception)])
+
+    def setup(self, I, st):
+        self.dumps_kwargs = A.adict(st, "json_dumps_kwargs", "str", "obj")
+        h = st.get(self.dumps_kwargs)
+        self.kd, self.kv = h.dom, h.val
+        self.dumps = sym("json_dumps_function", "obj")
+        self.policies = st.alloc(HDict(items={"json.dumps_function": self.dumps, "json.dumps_kwargs": self.dumps_kwargs, "truncate.leeway": 5}), initial=True)
+        self.env = A.obj(st, Environment, "environment", fields={"policies": self.policies})
+        self.eval_ctx = A.obj(st, N.EvalContext, "eval_ctx", fields={"environment": self.env})
+        self.value = sym("value", "obj")
+        self.indent = sym("indent", "int")
+        from pyvc.smt import host_const
+        st.assume(to_term(self.indent, "obj") != host_const(None))  # an int argument is not None
+        return [self.eval_ctx, self.value, self.indent if self.given else None], {}
+
+    def p_kwargs(self, pre, out):
+        calls = A.calls(out, "htmlsafe_json_dumps")
+        if len(calls) != 1:
+            return False
+        c = calls[0]
+        if len(c.args) != 1 or c.args[0] is not self.value or c.kwargs.get("dumps") is not self.dumps or set(c.kwargs) != {"dumps", "**"}:
+            return False
+        star = c.kwargs["**"]
+        st = out.st
+        if not self.given:
+            return star == self.dumps_kwargs
+        if not isinstance(star, Ref) or star == self.dumps_kwargs or star.id not in st.allocated:
+            return False
+        h = st.get(star)
+        k = z3.StringVal("indent")
+        q = z3.Const(fresh_name("q"), z3.StringSort())
+        return z3.And(h.dom == z3.Store(self.kd, k, True), z3.Select(h.val, k) == to_term(self.indent, "obj"),
+                      z3.ForAll([q], z3.Implies(z3.And(q != k, z3.Select(self.kd, q)), z3.Select(h.val, q) == z3.Select(self.kv, q))))
+
+    posts = [("policy_values_unchanged_and_only_fresh_objects_written", PolicyFrame.frame), ("dumps_gets_policy_kwargs_plus_indent_on_a_copy", p_kwargs)]
+
+
+class Obj2:
+    pass
+
+
+class UrlizePolicy(PolicyFrame):
+    """do_urlize(eval_ctx, value, ...): the three urlize.* policy values are read, never written (extra_schemes may be a
+    pre-existing list: it is iterated and handed on, not changed); string processing is abstract here."""
+    target = "jinja2.filters:do_urlize"
+
+    def __init__(self, args_given):
+        self.args_given = args_given
+        super().__init__("C29", f"C29.frame.filters.policies.do_urlize[{'arguments' if args_given else 'defaults'}]")
+
+    def configure(self, I):
+        import jinja2.filters as F
+        I.specs[("fn", id(F.urlize))] = A.abstract_fn("urlize", returns="obj", raises=[("any", Exception)])
+        I.specs[("fn", id(F.Markup))] = A.abstract_fn("Markup", returns="obj")
+        I.specs[("fn", id(sorted))] = lambda I_, st, args, kwargs, node: [(st, st.alloc(HList(items=list(I_.iter_concrete(st, args[0], node)))))]
+
+        def method_obj(I_, st, args, kwargs, node):
+            o, name = args[0], args[1]
+            if name == "split":
+                return [(st, (sym(fresh_name("word"), "str"),))]
+            return None
+
+        I.specs["method_obj"] = method_obj
+        from pyvc.values import BoundMethod
+        I.specs["getattr_obj"] = lambda I_, st, args, kwargs, node: ([(st, BoundMethod(args[0], args[1]))] if args[1] == "split" else None)
+        def fullmatch(*a):  # stable stand-in object for the bound method _uri_scheme_re.fullmatch
+            raise RuntimeError("abstract")
+
+        self._fullmatch = fullmatch
+        I.specs[("fn", id(fullmatch))] = A.abstract_fn("re.fullmatch", returns="obj")
+        I.attr_hook = lambda I_, st, obj, name, node: ([(st, fullmatch)] if obj is F._uri_scheme_re and name == "fullmatch" else None)
+
+    def setup(self, I, st):
+        self.schemes = st.alloc(HList(items=[sym("scheme0", "obj")]), initial=True)
+        self.policies = st.alloc(HDict(items={"urlize.rel": sym("policy_rel", "obj"), "urlize.target": sym("policy_target", "obj"),
+                                              "urlize.extra_schemes": self.schemes, "json.dumps_kwargs": A.adict(st, "json_dumps_kwargs", "str", "obj")}), initial=True)
+        self.env = A.obj(st, Environment, "environment", fields={"policies": self.policies})
+        self.eval_ctx = A.obj(st, N.EvalContext, "eval_ctx", fields={"environment": self.env, "autoescape": sym("autoescape", "bool")})
+        self.value = sym("value", "obj")
+        if self.args_given:
+            self.own_schemes = st.alloc(HList(items=[sym("scheme_arg", "obj")]), initial=True)
+            return [self.eval_ctx, self.value, sym("trim", "obj"), sym("nofollow", "bool"), sym("target", "obj"), sym("rel", "obj"), self.own_schemes], {}
+        return [self.eval_ctx, self.value], {}
+
+    def p_reads(self, pre, out):
+        calls = A.calls(out, "urlize")
+        if out.raised and not calls:
+            return None
+        if len(calls) != 1:
+            return False
+        es = calls[0].kwargs.get("extra_schemes")
+        return es == (self.own_schemes if self.args_given else self.schemes)
+
+    posts = [("policy_values_unchanged_and_only_fresh_objects_written", PolicyFrame.frame), ("extra_schemes_from_argument_else_policy", p_reads)]
+
+
+POLICY_TEMPLATES = {
+    "p_json_plain": "{{ c|tojson }}|{{ b|tojson }}",
+    "p_json_indent": "{{ c|tojson(indent=2) }}|{{ b|tojson(1) }}",
+    "p_json_both": "{{ c|tojson }}{{ c|tojson(2) }}{{ c|tojson }}",
+    "p_urlize_plain": "{{ 'see http://a.example/x and www.b.example'|urlize }}",
+    "p_urlize_args": "{{ 'see http://a.example/x tel:1'|urlize(10, true, target='_blank', rel='me', extra_schemes=['tel:']) }}",
+    "p_truncate_plain": "{{ 'foo bar baz qux quux corge'|truncate(9) }}",
+    "p_truncate_args": "{{ 'foo bar baz qux quux corge'|truncate(9, true, '..', 0) }}",
+    "p_wordwrap": "{{ 'foo bar baz qux'|wordwrap(7) }}{{ 'foo bar'|wordwrap(3, wrapstring='|') }}",
+    "p_trans": "{% trans %} a  b {% endtrans %}{% trans trimmed %} a  b {% endtrans %}",
+}
+
+
+def env_state(env):
+    """everything of an environment that outlives a render and that a filter / test / extension can reach"""
+    import jinja2.defaults as D
+    return {"policies": canon(env.policies), "DEFAULT_POLICIES": canon(D.DEFAULT_POLICIES), "globals": canon(dict(env.globals)),
+            "DEFAULT_NAMESPACE": canon({k: v for k, v in D.DEFAULT_NAMESPACE.items()}),
+            "filters": sorted((k, id(v)) for k, v in env.filters.items()), "tests": sorted((k, id(v)) for k, v in env.tests.items()),
+            "DEFAULT_FILTERS": sorted((k, id(v)) for k, v in D.DEFAULT_FILTERS.items()), "DEFAULT_TESTS": sorted((k, id(v)) for k, v in D.DEFAULT_TESTS.items())}
+
+
+def state_diff(a, b):
+    return [k for k in a if a[k] != b[k]]
+
+
+import jinja2.defaults as _D
+PRISTINE_DEFAULT_POLICIES = canon(_D.DEFAULT_POLICIES)  # taken at import time, before any render in this process
+
+
+def policy_problems(names=None, is_async=False):
+    """the policy templates in both orders (plain first / arguments first), in one environment and across environments:
+    outputs equal the isolated render, the environment state (policies and the process-wide defaults) equals its snapshot"""
+    import jinja2
+    names = list(names or POLICY_TEMPLATES)
+    problems = []
+    if canon(_D.DEFAULT_POLICIES) != PRISTINE_DEFAULT_POLICIES:
+        problems.append(("*", "DEFAULT_POLICIES", f"jinja2.defaults.DEFAULT_POLICIES differs from its import-time value: {_D.DEFAULT_POLICIES}"))
+        return problems
+
+    def mk(custom=False):
+        e = jinja2.Environment(loader=jinja2.DictLoader(POLICY_TEMPLATES), enable_async=is_async, autoescape=True, extensions=["jinja2.ext.i18n"])
+        e.install_null_translations()
+        if custom:  # an application that configured its own (container-valued) policies
+            e.policies["urlize.extra_schemes"] = ["tel:"]
+            e.policies["urlize.rel"] = "noopener nofollow"
+            e.policies["urlize.target"] = "_top"
+            e.policies["json.dumps_kwargs"] = {"sort_keys": False, "separators": (",", ":")}
+            e.policies["truncate.leeway"] = 2
+        return e
+
+    for n in names:  # configured policies: two renders each, state compared
+        e = mk(custom=True)
+        before = env_state(e)
+        r1, r2 = render_once(e, n, base_data()), render_once(e, n, base_data())
+        d = state_diff(before, env_state(e))
+        if d or r1 != r2:
+            problems.append((n, "env-state", f"{n} {POLICY_TEMPLATES[n]!r} with configured policies: renders {r1!r} / {r2!r}, changed {d} (policies now {e.policies})"))
+
+    want = {}
+    for n in names:  # isolated renders: each in a fresh environment; the process-wide defaults are checked after each
+        e = mk()
+        before = env_state(e)
+        want[n] = render_once(e, n, base_data())
+        d = state_diff(before, env_state(e))
+        if d:
+            problems.append((n, "env-state", f"{n} {POLICY_TEMPLATES[n]!r}: one render changed {d} (policies now {e.policies})"))
+            return problems
+    for order in (names, list(reversed(names))):
+        e = mk()
+        before = env_state(e)
+        for n in order + order:
+            r = render_once(e, n, base_data())
+            if r != want[n]:
+                problems.append((n, "order", f"{n} {POLICY_TEMPLATES[n]!r} rendered after {order[:order.index(n)] or 'itself'}: {r!r}, isolated render {want[n]!r}"))
+            d = state_diff(before, env_state(e))
+            if d:
+                problems.append((n, "env-state", f"{n} {POLICY_TEMPLATES[n]!r}: the render changed {d}"))
+                before = env_state(e)
+        e2 = mk()  # another environment afterwards
+        for n in names:
+            r = render_once(e2, n, base_data())
+            if r != want[n]:
+                problems.append((n, "other-environment", f"{n} {POLICY_TEMPLATES[n]!r} in a fresh environment after renders elsewhere: {r!r}, isolated render {want[n]!r}"))
+    return problems
+
+
+def replay_policies(w=None):
+    ps = policy_problems() + policy_problems(is_async=True)
+    return (bool(ps), "; ".join(p[2] for p in ps[:2])[:1200] or "policy-reading filters: outputs independent of order, environment state and process-wide defaults unchanged")
+
+
+def environment_state_all_filters(task, tier, seed):
+    """every registered filter and test (the template family of contracts/c19.py: each filter on 8 container variables, bare and
+    with container-valued arguments) + the policy templates: after every render the environment state - policies incl. nested
+    values, globals, filter / test tables, and the process-wide DEFAULT_* tables - equals its snapshot"""
+    import jinja2
+    from contracts import c19
+    ts = list(c19.frame_templates()) + ["{{ %s is %s }}" % (v, t) for t in sorted(jinja2.defaults.DEFAULT_TESTS) for v in ("l", "d", "text")]
+    fails = {}
+    n = 0
+    for autoescape in (False, True):
+        for is_async in (False, True):
+            env = jinja2.Environment(autoescape=autoescape, enable_async=is_async)
+            before = env_state(env)
+            for src in ts:
+                n += 1
+                try:
+                    env.from_string(src).render(**c19.frame_data())
+                except Exception:
+                    pass
+                d = state_diff(before, env_state(env))
+                if d:
+                    m = re.match(r"\{\{\s*\w+\s*(?:\||is )\s*(\w+)", src)
+                    fails.setdefault((m.group(1) if m else src, tuple(d)), f"{src} (autoescape={autoescape}, async={is_async}) changed {d}")
+                    before = env_state(env)
+    ps = policy_problems() + policy_problems(is_async=True)
+    for nme, kind, det in ps:
+        fails.setdefault((nme, kind), det)
+    task.bound_text = f"{len(ts)} templates (every registered filter and test) x autoescape off/on x sync/async, {len(POLICY_TEMPLATES)} policy templates in both orders and across environments"
+    rs = [Res("C29.frame.filters.environment_state", "bounded-ok", "native", 0, f"{n} renders left policies / globals / filter and test tables / DEFAULT_* unchanged", "bounded")]
+    for key, det in sorted(fails.items(), key=repr):
+        rs.append(Res("C29.frame.filters.environment_state", "refuted", "native", 0, det[:900], "bounded", {"key": f"{key[0]}:{key[1]}", "detail": det[:300]}))
+    return rs
+
+
+def policy_tasks():
+    return [ToJsonPolicy(True), ToJsonPolicy(False), UrlizePolicy(False), UrlizePolicy(True),
+            FrameOf("do_truncate[policy leeway]", "contracts.c23", "Truncate(True)", prefix="C29.frame.filters.policies"),
+            FrameOf("do_truncate[leeway argument]", "contracts.c23", "Truncate(False)", prefix="C29.frame.filters.policies"),
+            Bounded("C29", "C29.frame.filters.environment_state", environment_state_all_filters, "bounded", replay_policies)]
+
+
+# =====================================================================================================================
 # C29.bounded.histories
 # =====================================================================================================================
 
@@ -1061,7 +1332,11 @@ def bounded_histories(part, parts):
         from standins import c03_scoping as S
         t0 = time.time()
         fails = {}
-        names = [n for i, n in enumerate(TEMPLATES) if i % parts == part]
+        family = list(TEMPLATES) + list(POLICY_TEMPLATES)
+        names = [n for i, n in enumerate(family) if i % parts == part]
+        if part == 0:
+            for n, kind, det in policy_problems() + policy_problems(is_async=True):
+                fails.setdefault((kind, n), det)
         cases = 0
         for is_async in (False, True):
             use = [n for n in names if not (is_async and n == "t_cycler")]
@@ -1076,9 +1351,10 @@ def bounded_histories(part, parts):
         for n, kind, det in history_problems(list(srcs), extra=srcs, threads=4, data_fn=gen_data):
             fails.setdefault((kind, srcs[n]), det.replace(n + ":", repr(srcs[n]) + ":"))
         cases += len(srcs)
-        task.bound_text = (f"{len(names)} hand-written templates (imports with cached modules, includes, inheritance, namespaces, loop state, filters that build new "
+        task.bound_text = (f"{len(names)} hand-written templates (filters that read environment.policies with and without arguments, in both orders and across environments; imports with cached modules, includes, inheritance, namespaces, loop state, filters that build new "
                            f"containers; sync and async) and {count} generated statement trees per task: each rendered isolated, twice, after all others and from 4 threads "
-                           "(switch interval 1 microsecond) in one shared environment; data, environment globals and template globals deep-compared with a snapshot")
+                           "(switch interval 1 microsecond) in one shared environment; data, environment globals, template globals, environment.policies incl. nested values, filter / test tables and the process-wide DEFAULT_* tables "
+                           "deep-compared with a snapshot after every render")
         task.stats = {"templates": cases, "seconds": round(time.time() - t0, 1)}
         rs = [Res(f"C29.bounded.histories[{part}]", "bounded-ok", "native", 0, f"{cases} templates x 4 histories agree with the isolated render; inputs unchanged", "bounded")]
         for (kind, n), det in sorted(fails.items()):
@@ -1089,6 +1365,8 @@ def bounded_histories(part, parts):
 
 def replay_histories(w):
     n = (w or {}).get("template")
+    if n in POLICY_TEMPLATES or n == "*":
+        return replay_policies(w)
     if n in TEMPLATES:
         ps = history_problems([n]) + history_problems([n], is_async=True, threads=0)
     elif n:
@@ -1101,7 +1379,7 @@ def replay_histories(w):
 
 
 N_HIST = 3
-_ALL = (entry_tasks() + emitted_tasks() + [FiltersProxy(i, 3) for i in range(3)]
+_ALL = (entry_tasks() + emitted_tasks() + [FiltersProxy(i, 3) for i in range(3)] + policy_tasks()
          + [Bounded("C29", "C29.cache.immutable", cache_immutable, "bounded", replay_cache)]
          + [Bounded("C29", f"C29.bounded.histories[{i}]", bounded_histories(i, N_HIST), "bounded", replay_histories) for i in range(N_HIST)])
 _HEAVY = ("visit_For", "visit_Template", "visit_Macro", "visit_CallBlock", "runtime.new_context[vars=dict,globals=dict,locals=dict]")
